@@ -12,7 +12,7 @@ POOL = ['web', 'Web', 'WEB', 'w b', '', 'ünï', 'a.b', 'x*', 'api', 'Api',
         'Straße', 'ſide']
 # names that can be requested but not written into a configuration file
 # (a lone surrogate: valid JSON, no valid UTF-8)
-REQ_ONLY = ['\ud800x']
+REQ_ONLY = ['\ud800x', ' web', 'api ', '\tWeb']
 
 
 def conflict(o):
@@ -337,7 +337,7 @@ class C15(Prop):
         for _ in range(n):
             x = rng.random()
             nm = rng.choice(POOL)
-            if x < 0.6 and rng.random() < 0.06:
+            if x < 0.6 and rng.random() < 0.12:
                 nm = rng.choice(REQ_ONLY)
             if x < 0.35:
                 ops.append({'op': 'c15', 'kind': 'add', 'name': nm,
